@@ -1976,6 +1976,9 @@ class Parallel(Logger):
         self.n_dispatched_batches = 0
         self.n_dispatched_tasks = 0
         self.n_completed_tasks = 0
+        # Number of tasks dispatched by the calling thread before retrieval
+        # starts (set for parallel runs, read by print_progress in all runs).
+        self._pre_dispatch_amount = 0
 
         # Following count is incremented by one each time the user iterates
         # on the output generator, it is used to prepare an informative
